@@ -455,6 +455,22 @@ def run_item(args):
         out["violations"].append({"class": v, "key": violation_key(item, v, []), "item": item, "plan": [], "case": case,
                                   "observed": strip_res(R), "expected": "ARM0 (exit 0 + complete script) or ARM1 (exit 1 + diagnostic + destination untouched)"})
         return out
+    if R["exit"] == 1 and not item["kind"].startswith("stress:"):
+        # configuration sweep for rejected inputs: "nothing written to the destination, an existing file left untouched" must hold
+        # for a destination FILE whatever mode the item drew (a destination opened before the last validation stage shows
+        # only for the one mistake kind that stage rejects, and only with a file destination)
+        for dm in ("existing", "newfile"):
+            if dm == item["dest_mode"]:
+                continue
+            it2 = dict(item, dest_mode=dm)
+            R2 = proc.run_case(base_case(it2))
+            out["runs"] += 1
+            pr["dest_sweep_runs"] = pr.get("dest_sweep_runs", 0) + 1
+            v2 = judge_reference(it2, R2)
+            if v2:
+                out["violations"].append({"class": v2, "key": violation_key(it2, v2, []), "item": it2, "plan": [], "case": base_case(it2),
+                                          "observed": strip_res(R2), "expected": "ARM1 (exit 1 + diagnostic + destination untouched)"})
+                return out
     plans = make_plans(item, R, rng, tier)
     out["plans"] = len(plans)
     seen_classes = set()
@@ -562,8 +578,12 @@ def minimise(v):
     """Delta-debug: fault-plan entries first, then weaken, then the grammar (statement-wise, then characters)."""
     cls = v["class"]
     cur = json.loads(json.dumps(v))
+    # wall budget: a hang costs the full timeout per candidate, so shrinking one must not stall the check
+    deadline = time.time() + (90.0 if not cls.startswith("hang") else 150.0)
 
     def holds(cand):
+        if time.time() > deadline:
+            return False
         got, _, _ = reproduce(cand)
         return same_class(got, cls)
 
